@@ -142,6 +142,10 @@ func genELF(t *rapid.T) *elfCase {
 		if huge {
 			c.Bias &^= 0x1fffff
 		}
+		if first >= 0x400000 && rapid.IntRange(0, 5).Draw(t, "negbias") == 0 {
+			// loaded BELOW its link-time address: the bias is a 64-bit two's complement number
+			c.Bias = ^uint64(0x200000) + 1
+		}
 	}
 	tg := c.Segs[c.Target]
 	pages := int((pageup(tg.Vaddr+tg.Filesz) - pagedown(tg.Vaddr)) / page)
